@@ -5,7 +5,6 @@ of that list through the slice, skip-list and map loaders.
 import SST.Proofs.SSTableWriter
 import SST.Proofs.SSTableIndex
 import SST.Proofs.Proto
-import SST.Proofs.RecordIODamage
 namespace SST.Proofs.Sst
 open SST Generated SST.Proofs
 
@@ -83,10 +82,31 @@ theorem loadEntriesS_enc (c : Compression) (hl : LawfulC c) (es : List (Bytes ×
 
 theorem fileHeader_eq (v ct : Nat) : fileHeader v ct = le32 v ++ le32 ct := rfl
 
+theorem sst_le32_length (n : Nat) : (le32 n).length = 4 := rfl
+
+theorem sst_le32Dec_le32 (n : Nat) (h : n < 2 ^ 32) : le32Dec (le32 n) = some n := by
+  simp only [le32, le32Dec]
+  rw [toNat_ofNat_lt _ (Nat.mod_lt _ (by decide)), toNat_ofNat_lt _ (Nat.mod_lt _ (by decide)),
+    toNat_ofNat_lt _ (Nat.mod_lt _ (by decide)), toNat_ofNat_lt _ (Nat.mod_lt _ (by decide))]
+  congr 1; omega
+
+/-- the file header the writer puts in front of a file is accepted by both readers -/
 theorem parse_fileHeader (ct : Nat) (rest : Bytes) (hct : ct ≤ maxCompression) :
     parseFileHeader (fileHeader currentVersion ct ++ rest) = .ok (currentVersion, ct) := by
+  have hm : maxCompression = 3 := rfl
+  have hcv : currentVersion = 4 := rfl
+  have hmv : minVersion = 1 := rfl
   rw [fileHeader_eq]
-  exact file_header_accepted currentVersion ct rest (by decide) hct
+  have h1 : (le32 currentVersion ++ le32 ct ++ rest).take 4 = le32 currentVersion := by
+    rw [List.append_assoc, List.take_left' (sst_le32_length _)]
+  have h2 : ((le32 currentVersion ++ le32 ct ++ rest).drop 4).take 4 = le32 ct := by
+    rw [List.append_assoc, List.drop_left' (sst_le32_length _), List.take_left' (sst_le32_length ct)]
+  have h3 : ¬ (le32 currentVersion ++ le32 ct ++ rest).length < fileHeaderSize := by
+    simp only [List.length_append, sst_le32_length, fileHeaderSize]; omega
+  unfold parseFileHeader
+  rw [if_neg h3, h1, h2, sst_le32Dec_le32 currentVersion (by rw [hcv]; decide), sst_le32Dec_le32 ct (by omega)]
+  simp only
+  rw [if_neg (by omega), if_neg (by omega)]
 
 theorem drop_fileHeader (ct : Nat) (rest : Bytes) :
     (fileHeader currentVersion ct ++ rest).drop fileHeaderSize = rest :=
@@ -452,13 +472,27 @@ theorem reads_as_map (comps : Nat → Compression) (cfg : SstCfg) (kvs : List KV
 
 /-! ## the three in-memory loaders -/
 
+theorem loadIndex_slice_of (comps : Nat → Compression) (f : Bytes) (es : List IEntry)
+    (h : loadEntries comps f = .ok es) : loadIndex comps .slice f = .ok (.slice es) := by
+  unfold loadIndex; rw [h]; rfl
+
+theorem loadIndex_skip_of (comps : Nat → Compression) (f : Bytes) (es : List IEntry) (hs : List Nat) (sl : SkipIdx)
+    (h : loadEntries comps f = .ok es) (h2 : skipLoad es hs = .ok sl) :
+    loadIndex comps (.skip hs) f = .ok (.skip sl) := by
+  unfold loadIndex; rw [h]; simp only [h2]; rfl
+
+theorem loadIndex_map_of (comps : Nat → Compression) (f : Bytes) (es : List IEntry) (n : Nat)
+    (h : loadEntries comps f = .ok es) (h2 : mapLoadOk n es = true) :
+    loadIndex comps (.map n) f = .ok (.map n es) := by
+  unfold loadIndex; rw [h]; simp only [h2, if_true]
+
 theorem slice_table (comps : Nat → Compression) (cfg : SstCfg) (kvs : List KV)
     (hc : CompsOk comps cfg) (hf : FitsKV cfg kvs) (hs : StrictAsc bytesCmp kvs) :
     ∃ idx, loadIndex comps .slice (indexFileOf cfg kvs) = .ok idx ∧
       IdxRefines (fun _ => True) idx (loadedEntries cfg kvs) := by
   obtain ⟨h1, h2, h3, h4, h5⟩ := slice_refines _ (loadedEntries_strictAsc cfg kvs hs)
   refine ⟨.slice (loadedEntries cfg kvs), ?_, ?_⟩
-  · simp [loadIndex, loadEntries_table comps cfg kvs hc hf, Except.map]
+  · exact loadIndex_slice_of comps _ _ (loadEntries_table comps cfg kvs hc hf)
   · exact ⟨fun k _ => by simp [Index.get, h1], fun k _ => by simp [Index.contains, h2], by simp [Index.all, h3],
       fun k => by simp [Index.from, h4], fun lo hi => by simp [Index.between, h5]⟩
 
@@ -469,7 +503,7 @@ theorem skip_table (comps : Nat → Compression) (cfg : SstCfg) (kvs : List KV)
       IdxRefines (fun _ => True) idx (loadedEntries cfg kvs) := by
   obtain ⟨sl, h0, h1, h2, h3, h4, h5⟩ := skip_refines _ (loadedEntries_strictAsc cfg kvs hs) heights hh
   refine ⟨.skip sl, ?_, ?_⟩
-  · simp [loadIndex, loadEntries_table comps cfg kvs hc hf, h0, Except.map]
+  · exact loadIndex_skip_of comps _ _ _ _ (loadEntries_table comps cfg kvs hc hf) h0
   · exact ⟨fun k _ => by simp [Index.get, h1], fun k _ => by simp [Index.contains, h2], by simp [Index.all, h3],
       fun k => by simp [Index.from, h4], fun lo hi => by simp [Index.between, h5]⟩
 
@@ -497,7 +531,7 @@ theorem map_table (comps : Nat → Compression) (cfg : SstCfg) (kvs : List KV)
     obtain ⟨p, hp, hpe⟩ := List.mem_map.mp this
     simpa [← hpe] using hn p hp
   refine ⟨.map n (loadedEntries cfg kvs), ?_, ?_⟩
-  · simp [loadIndex, loadEntries_table comps cfg kvs hc hf, hok]
+  · exact loadIndex_map_of comps _ _ _ (loadEntries_table comps cfg kvs hc hf) hok
   · refine ⟨?_, ?_, by simp [Index.all, h3], fun k => by simp [Index.from, h4],
       fun lo hi => by simp [Index.between, h5]⟩
     · intro k hk
@@ -521,5 +555,107 @@ theorem table_reads (comps : Nat → Compression) (cfg : SstCfg) (kvs : List KV)
   refine ⟨readerOf cfg kvs o bloom, idx, ?_, reads_as_map comps cfg kvs hc hf o bloom hb P idx href⟩
   rw [writeTable_eq cfg kvs (by rw [hcmp]; exact hs)]
   exact openTable_ok comps cfg kvs hc hf k o bloom idx hload href.all
+
+/-! ## C15: the closed table decodes to the accepted pairs; metadata -/
+
+theorem loadedEntries_eq (cfg : SstCfg) (kvs : List KV) :
+    loadedEntries cfg kvs = (entriesOf cfg.dc kvs).map fun e => (normKey e.1, e.2) := by
+  unfold loadedEntries
+  rw [← trips_entry, List.map_map]
+  rfl
+
+theorem table_decodes (comps : Nat → Compression) (cfg : SstCfg) (acc : List KV)
+    (hc : CompsOk comps cfg) (hf : FitsKV cfg acc) :
+    readAll cfg.dc (dataFileOf cfg acc) = (acc.map (·.2), .eof) ∧
+    loadEntries comps (indexFileOf cfg acc) = .ok ((entriesOf cfg.dc acc).map fun e => (normKey e.1, e.2)) := by
+  constructor
+  · have hfr : ∀ r ∈ acc.map (·.2), FitsRec cfg.dc r := by
+      intro r hr
+      obtain ⟨p, hp, rfl⟩ := List.mem_map.mp hr
+      exact (hf.1 p hp).1
+    have := seq_roundtrip cfg.dc cfg.dct (acc.map (·.2)) hc.2.2.1 hfr
+    unfold dataFileOf
+    exact this
+  · rw [← loadedEntries_eq]
+    exact loadEntries_table comps cfg acc hc hf
+
+theorem closed_table_eq_accepted (comps : Nat → Compression) (cfg : SstCfg) (cs : List Call)
+    (htr : ∀ a b c, cfg.cmp a b = .lt → cfg.cmp b c = .lt → cfg.cmp a c = .lt)
+    (hc : CompsOk comps cfg) (hf : FitsKV cfg (accepted cfg.cmp cs)) :
+    StrictAsc cfg.cmp (accepted cfg.cmp cs) ∧
+    ((SstW.open cfg).run cfg cs).1.close = tableOf cfg (accepted cfg.cmp cs) ∧
+    readAll cfg.dc ((SstW.open cfg).run cfg cs).1.close.data = ((accepted cfg.cmp cs).map (·.2), .eof) ∧
+    loadEntries comps ((SstW.open cfg).run cfg cs).1.close.index =
+      .ok ((entriesOf cfg.dc (accepted cfg.cmp cs)).map fun e => (normKey e.1, e.2)) := by
+  obtain ⟨hinv, _⟩ := run_open_spec cfg cs
+  have ht := (close_spec cfg _ _ hinv).1
+  obtain ⟨h1, h2⟩ := table_decodes comps cfg _ hc hf
+  rw [ht]
+  exact ⟨accepted_strictAsc cfg.cmp htr cs, rfl, h1, h2⟩
+
+theorem metadata_truthful (cfg : SstCfg) (cs : List Call) :
+    ((SstW.open cfg).run cfg cs).1.close.metaf = encMeta ((SstW.open cfg).run cfg cs).1.finalMeta ∧
+    ((SstW.open cfg).run cfg cs).1.finalMeta = metaOf cfg (accepted cfg.cmp cs) ∧
+    ((SstW.open cfg).run cfg cs).1.close = tableOf cfg (accepted cfg.cmp cs) ∧
+    (FitsKV cfg (accepted cfg.cmp cs) →
+      decMeta ((SstW.open cfg).run cfg cs).1.close.metaf = .ok (metaOf cfg (accepted cfg.cmp cs)).norm) := by
+  obtain ⟨hinv, _⟩ := run_open_spec cfg cs
+  obtain ⟨ht, hm⟩ := close_spec cfg _ _ hinv
+  refine ⟨rfl, hm, ht, ?_⟩
+  intro hf
+  rw [ht]
+  exact decMeta_metaOf cfg _ hf
+
+theorem contains_no_false_negative (comps : Nat → Compression) (r : Reader) (idx : Index) (kvs : List KV)
+    (h : ReadsAsMap comps (fun _ => True) r idx kvs) :
+    ∀ p ∈ kvs, r.contains idx p.1 = (idx, some (.ok true)) := by
+  intro p hp
+  rw [h.contains p.1 trivial]
+  have : (specGet bytesCmp kvs p.1).isSome = true := by
+    unfold specGet
+    rw [Option.isSome_map, List.find?_isSome]
+    exact ⟨p, hp, by simp [bytesCmp_refl]⟩
+  rw [this]
+
+/-! ## the zero-padding collision of the map loader (D21) -/
+
+theorem map_index_pad_collision (comps : Nat → Compression) (cfg : SstCfg) (hcmp : cfg.cmp = bytesCmp)
+    (hc : CompsOk comps cfg) (v1 v2 : GoBytes) (hf : FitsKV cfg [([97], v1), ([97, 0], v2)])
+    (o : ReadOpts) (bloom : Option (Bytes → Bool)) :
+    ∃ r idx, openTable comps (.map 4) o (writeTable cfg [([97], v1), ([97, 0], v2)]) bloom = .ok (r, idx) ∧
+      (r.get idx [97]).2 = some (.ok v2) ∧ specGetRes [([97], v1), ([97, 0], v2)] [97] = .ok v1 ∧
+      (r.get idx [97, 0, 0]).2 = some (.ok v2) ∧
+      specGetRes [([97], v1), ([97, 0], v2)] [97, 0, 0] = .error .notFound := by
+  have hs : StrictAsc bytesCmp [(([97] : Bytes), v1), ([97, 0], v2)] := by
+    unfold StrictAsc
+    simp [bytesCmp]
+  have hsE := loadedEntries_strictAsc cfg _ hs
+  have hE : loadedEntries cfg [([97], v1), ([97, 0], v2)] =
+      [(some [97], ⟨fileHeaderSize, valueSum v1⟩),
+       (some [97, 0], ⟨fileHeaderSize + (encRecord cfg.dc v1).length, valueSum v2⟩)] := rfl
+  have hok : mapLoadOk 4 (loadedEntries cfg [([97], v1), ([97, 0], v2)]) = true := by rw [hE]; rfl
+  have hload := loadIndex_map_of comps _ _ 4 (loadEntries_table comps cfg _ hc hf) hok
+  have hall : (Index.map 4 (loadedEntries cfg [([97], v1), ([97, 0], v2)])).all =
+      (loadedEntries cfg [([97], v1), ([97, 0], v2)], .done) := (slice_refines _ hsE).2.2.1
+  refine ⟨readerOf cfg [([97], v1), ([97, 0], v2)] o bloom,
+    Index.map 4 (loadedEntries cfg [([97], v1), ([97, 0], v2)]), ?_, ?_, ?_, ?_, ?_⟩
+  · rw [writeTable_eq cfg _ (by rw [hcmp]; exact hs)]
+    exact openTable_ok comps cfg _ hc hf (.map 4) o bloom _ hload hall
+  · have hv := getValue_table cfg _ hc.2.2.1 hf (readerOf cfg [([97], v1), ([97, 0], v2)] o bloom).skipHashOnRead
+      ([97, 0], v2, ⟨fileHeaderSize + (encRecord cfg.dc v1).length, valueSum v2⟩)
+      (by simp [trips, tripFrom])
+    have hg : mapGet 4 (loadedEntries cfg [([97], v1), ([97, 0], v2)]) [97] =
+        some (.ok ⟨fileHeaderSize + (encRecord cfg.dc v1).length, valueSum v2⟩) := by rw [hE]; rfl
+    simp only [Reader.get, Index.get, hg, Option.map_some, Reader.getWith]
+    exact congrArg some hv
+  · simp [specGetRes, specGet, bytesCmp]
+  · have hv := getValue_table cfg _ hc.2.2.1 hf (readerOf cfg [([97], v1), ([97, 0], v2)] o bloom).skipHashOnRead
+      ([97, 0], v2, ⟨fileHeaderSize + (encRecord cfg.dc v1).length, valueSum v2⟩)
+      (by simp [trips, tripFrom])
+    have hg : mapGet 4 (loadedEntries cfg [([97], v1), ([97, 0], v2)]) [97, 0, 0] =
+        some (.ok ⟨fileHeaderSize + (encRecord cfg.dc v1).length, valueSum v2⟩) := by rw [hE]; rfl
+    simp only [Reader.get, Index.get, hg, Option.map_some, Reader.getWith]
+    exact congrArg some hv
+  · simp [specGetRes, specGet, bytesCmp]
 
 end SST.Proofs.Sst
